@@ -35,6 +35,7 @@ def run(rep, work, tier, seed, only=None):
                           {'instance': key, 'error': rec['error'], 'trace': rec.get('trace')})
             continue
         rep.count(rec['cls'])
+        cc.report_hist_diff(rep, rec, key)
         if rec['n'] > CAP[tier]:
             skipped += 1
             # still decide by the independent evaluator (test, not counted as an obligation)
